@@ -3,7 +3,7 @@
   `checked_beta_inc`, the panicking variants, and the hand model of `inv_beta_reg`).
   Sections 1–4 are branch logic for EVERY carrier α; section 5 (`inv_beta_reg`) is about the
   hand-written IEEE-double model `Statrs.Gen.FHand.F.beta.inv_beta_reg`.
-  Tables: `Statrs/Draft/Spec/FunctionBranches.lean`.
+  Tables: `Statrs/Spec/FunctionBranches.lean`.
 
   What is pinned for `checked_beta_reg` (Lentz continued fraction, beta.rs:138–234):
   the three domain guards in order; the prefactor `bt` (exactly 0 at `x == 0` and `x ≈ 1`);
@@ -16,7 +16,7 @@
 import Mathlib.Tactic
 import Statrs.Real.Simp
 import Statrs.Inst.Float
-import Statrs.Draft.Spec.FunctionBranches
+import Statrs.Spec.FunctionBranches
 namespace Statrs.Props.C11.BranchPins
 open Statrs Statrs.Gen Statrs.Spec.FunctionBranches
 set_option linter.unusedSectionVars false
